@@ -73,13 +73,24 @@ func c08Echo(c *caseCtx) {
 			withJunk = append(withJunk, disabledJunk(c.rng))
 		}
 		bm := b.(M)
-		switch c.rng.Intn(4) {
+		switch c.rng.Intn(5) {
 		case 0:
 			bm["applyProbability"] = 0.0
 		case 1:
 			bm["applyProbability"] = 1.0
+		case 2:
+			bm["applyProbability"] = nil // an explicit null is "not given": the default 1 applies
 		}
 		withJunk = append(withJunk, bm)
+	}
+	if c.rng.Intn(25) == 0 {
+		// an omission that takes every criterion away, directly followed by a concealment (which puts one back): the
+		// concealment has probability 1, so it fires and says what it did
+		withJunk = []interface{}{
+			M{"name": "criteriaOmission", "props": M{"ratio": 1.0}},
+			M{"name": "criteriaConcealment", "applyProbability": 1.0, "props": M{"randomSeed": c.rng.Intn(1000), "newCriterionRandomSeed": c.rng.Intn(1000)}},
+		}
+		c.count("omission_of_everything_then_concealment", 1)
 	}
 	if c.rng.Intn(2) == 0 {
 		withJunk = append(withJunk, disabledJunk(c.rng))
